@@ -515,8 +515,10 @@ def _run_sk(job):
     r = _W["ob"].curve_order
     S = _W["suites"][suite]
     kk = 1 + idx % 254
-    pattern = rng.choice([(1 << kk) - 1, 1 << kk, (1 << kk) - (1 << rng.randrange(0, kk)), (1 << kk) | rng.getrandbits(kk),
-                          ((1 << kk) - 1) ^ (1 << rng.randrange(0, kk))])
+    # all-ones, a single bit, a run of ones, random below a top bit, all-ones with one hole: the form is taken
+    # from the job's seed so that consecutive seeds go through all five
+    pattern = [(1 << kk) - 1, 1 << kk, (1 << kk) - (1 << rng.randrange(0, kk)), (1 << kk) | rng.getrandbits(kk),
+               ((1 << kk) - 1) ^ (1 << rng.randrange(0, kk))][seed % 5]
     band = None
     if cls in ("bandpk", "bandsig"):
         band = _band_search(rng, cls, suite, want_top=(idx % 3 != 2))
@@ -779,9 +781,9 @@ def run(ctx: Ctx, focus):
                     sk_jobs.append((k * 17 + rep, ctx.seed + 5000 + k, cls, suite))
         for b in range(1, 255, 23 if quick else 3):          # every bit length across a run
             sk_jobs.append((b, ctx.seed + 9000 + b, "bits", ("basic", "aug", "pop")[b % 3]))
-        for b in (64, 128, 192, 200, 254, 255):                # all-ones and power-of-two patterns at word boundaries
-            for rep in range(2):
-                sk_jobs.append((b - 1, ctx.seed + 9500 + 7 * b + rep, "bits", ("basic", "aug", "pop")[(b + rep) % 3]))
+        for b in (4, 8, 16, 64, 128, 192, 200, 252, 254):      # all five patterns at nibble / word boundaries
+            for rep in range(5):
+                sk_jobs.append((b - 1, ctx.seed + 9500 + 10 * b + rep, "bits", ("basic", "aug", "pop")[(b + rep) % 3]))
         kg_jobs = [(i, ctx.seed + 12000 + i, ("basic", "aug", "pop")[i % 3]) for i in range(6 if quick else 60)]
         seq_jobs = [(i, ctx.seed + 13000 + i) for i in range(8 if quick else 80)]
     if focus == "C02":      # the canonical signature must be accepted also where its coordinates sit in boundary bands
